@@ -58,12 +58,63 @@ func (ex *Exec) typeIntTerm(st *State, v Val, t types.Type) *Term {
 	return sub.scalar(r, cl.Expr)
 }
 
+// typeAttrTerm evaluates the typeattr `name` of type t (self = payload, which may be nil for attributes that do not
+// depend on the value); nil when the type declares no such attribute or it cannot be evaluated without a value.
+func (ex *Exec) typeAttrTerm(st *State, payload Val, t types.Type, name string) (res *Term) {
+	if t == nil {
+		return nil
+	}
+	ts := ex.P.CS.Types[typeKey(t)]
+	if ts == nil || ts.Attrs == nil || ts.Attrs[name] == nil {
+		return nil
+	}
+	defer func() {
+		if r := recover(); r != nil {
+			if _, isReject := r.(rejectErr); isReject {
+				res = nil
+				return
+			}
+			panic(r)
+		}
+	}()
+	sub := &SpecEnv{ex: ex, st: st, vars: map[string]Val{}, vtypes: map[string]types.Type{}}
+	if payload != nil {
+		sub.vars["self"] = payload
+		sub.vtypes["self"] = t
+	}
+	if n, ok := t.(*types.Named); ok && n.Obj().Pkg() != nil {
+		sub.pkg = n.Obj().Pkg()
+	}
+	r, _ := sub.eval(ts.Attrs[name].Expr)
+	return sub.scalar(r, ts.Attrs[name].Expr)
+}
+
 func (ex *Exec) ifaceGhost(st *State, iv IfaceV, name string) *Term {
 	if g, ok := iv.Sym.Ghosts[name]; ok {
 		return g
 	}
 	g := ex.declInput(iv.Sym.Name+"!"+name, IntSort)
 	iv.Sym.Ghosts[name] = g
+	if name != "mval" {
+		// attributes declared per type (typeattr): kind(x) == T ==> ghost == the type's value (constant attributes only)
+		var tnames []string
+		for tn, ts := range ex.P.CS.Types {
+			if ts.Attrs != nil && ts.Attrs[name] != nil {
+				tnames = append(tnames, tn)
+			}
+		}
+		sort.Strings(tnames)
+		for _, tn := range tnames {
+			t := ex.P.LookupType(tn, nil)
+			if t == nil {
+				continue
+			}
+			if at := ex.typeAttrTerm(st, nil, t, name); at != nil {
+				ex.Assumes = append(ex.Assumes, Implies(Eq(iv.Kind, IntC(int64(ex.P.TypeTag(t)))), Eq(g, at)))
+			}
+		}
+		return g
+	}
 	// tie to payloads created so far
 	var keys []string
 	for k := range iv.Sym.Payloads {
@@ -131,7 +182,25 @@ func (cs *ContractSet) ExpandIfaceContracts(p *Program) []string {
 			continue
 		}
 		mname := k[i+1:]
+		// option expandfor=I: only implementors that also implement interface I (e.g. IntegerValue)
+		var onlyFor *types.Interface
+		if ef := c.Options["expandfor"]; ef != "" {
+			pk := k[:i]
+			if j := strings.LastIndex(pk, "."); j >= 0 {
+				pk = pk[:j]
+			}
+			if ft := p.LookupType(pk+"."+ef, nil); ft != nil {
+				onlyFor, _ = ft.Underlying().(*types.Interface)
+			}
+		}
+		ifaceShort := k[:i]
+		if j := strings.LastIndex(ifaceShort, "."); j >= 0 {
+			ifaceShort = ifaceShort[j+1:]
+		}
 		for _, t := range p.Implementors(it) {
+			if onlyFor != nil && !types.Implements(t, onlyFor) {
+				continue
+			}
 			if _, isPtr := t.(*types.Pointer); isPtr {
 				// value types implementing the interface are handled through T (method sets of *T include T's)
 				if _, ok := t.(*types.Pointer).Elem().Underlying().(*types.Interface); ok {
@@ -158,10 +227,20 @@ func (cs *ContractSet) ExpandIfaceContracts(p *Program) []string {
 			}
 			key := fn.String()
 			if _, have := cs.Funcs[key]; have {
-				continue
+				// the method has a contract of its own: with `option refine=true` its body is verified a second
+				// time, against the interface contract, under the key "<method>@<Interface>" (so that what generic
+				// callers assume of an unknown implementor is proved of every implementor)
+				if c.Options["refine"] != "true" {
+					continue
+				}
+				key += "@" + ifaceShort
+				if _, have2 := cs.Funcs[key]; have2 {
+					continue
+				}
 			}
 			nc := *c
 			nc.Key = key
+			nc.Base = fn.String()
 			nc.Iface = false
 			nc.Assumed = false
 			nc.Options = map[string]string{}
